@@ -357,11 +357,12 @@ class ReplaceIf(ast.NodeTransformer):
         if (self.inCall):
             raise TranspilationException('Ternary "if" inside a call not supported')
             
-        """Transforms Python ternary if-expressions into VerilogIf"""
+        """Transforms Python ternary if-expressions into the Verilog conditional operator"""
+        # an if-expression is a value, not a statement: 'x = a if c else b' is 'x = (c) ? a : b'
         condition = self.visit(node.test)
-        positive = [self.visit(node.body)]  # Wrap in list to match VerilogIf structure
-        negative = [self.visit(node.orelse)]
-        return VerilogIf(condition, positive, negative)
+        positive = self.visit(node.body)
+        negative = self.visit(node.orelse)
+        return VerilogTernaryConditionalOperator(condition, positive, negative)
 
 class ReplaceMatch(ast.NodeTransformer):
     """Transforms Python match/case into VerilogCase."""
